@@ -83,6 +83,15 @@ class _StdApi:
         self.is_graal = variant == GRAAL
         self.hasconst = opc.hasconst
         self.hasname = opc.hasname
+        self.hasjrel = opc.hasjrel
+        self.hasjabs = opc.hasjabs
+        self.haslocal = opc.haslocal
+        self.hascompare = opc.hascompare
+        self.hasfree = opc.hasfree
+        # The following were added to ``dis`` in 3.12 and 3.13
+        for name in ("hasarg", "hasexc", "hasjump"):
+            if hasattr(opc, name):
+                setattr(self, name, getattr(opc, name))
         self.opmap = opc.opmap
         self.opname = opc.opname
         self.EXTENDED_ARG = opc.EXTENDED_ARG
@@ -282,6 +291,17 @@ _std_api = make_std_api()
 
 hasconst = _std_api.hasconst
 hasname = _std_api.hasname
+hasjrel = _std_api.hasjrel
+hasjabs = _std_api.hasjabs
+haslocal = _std_api.haslocal
+hascompare = _std_api.hascompare
+hasfree = _std_api.hasfree
+if hasattr(_std_api, "hasarg"):
+    hasarg = _std_api.hasarg
+if hasattr(_std_api, "hasexc"):
+    hasexc = _std_api.hasexc
+if hasattr(_std_api, "hasjump"):
+    hasjump = _std_api.hasjump
 opmap = _std_api.opmap
 opname = _std_api.opname
 EXTENDED_ARG = _std_api.EXTENDED_ARG
